@@ -274,12 +274,20 @@ def annotate(paths: List[Path], cls: Any) -> None:
     codes = {st.code for p in paths for st in p.steps}
     regions = lock_regions(sorted(codes, key=lambda c: (c.co_filename, c.co_firstlineno)), cls)
     for p in paths:
+        hold = None      # (code, first body line, last body line) of the critical section being executed
         for st in p.steps:
+            if hold is not None:
+                if st.code is hold[0]:
+                    if not (hold[1] <= st.line <= hold[2]):
+                        hold = None
+                else:
+                    st.inside = True      # a call made from inside the critical section (__hash__, __eq__, ...)
             for (w, a, b) in regions.get(st.code, []):
                 if st.line == w:
                     st.acquire = True
                 elif a <= st.line <= b:
                     st.inside = True
+                    hold = (st.code, a, b)
             try:
                 lines, first = inspect.getsourcelines(st.code)
                 st.src = lines[st.line - first].strip()[:70]
